@@ -5,7 +5,7 @@ Open Scope Z_scope.
 
 Inductive obs : Type :=
 | OOk (peak : Z) (sent : list (list Z))   (* peak bytes requested while handling; user datagrams sent *)
-| OPanic (site : Z)                        (* file * 10000 + line; 0: a file outside this model *)
+| OPanic (site : Z)                        (* file * 10000 + line; 0 or file >= 7: a file outside this model *)
 | OHang
 | OOom (bytes : Z).
 
@@ -36,15 +36,20 @@ Definition project (m : psub) : list osum :=
   | Gap r w s gl => [OGap r w s (ss_base gl)]
   | _ => []
   end.
-Definition project_dgram (b : list Z) : list osum := flat_map project (subs_of b).
+(* entity ids of builtin endpoints have the two top bits of the kind octet set; the measured
+   state only holds the user-defined endpoints: what builtin endpoints send is not compared *)
+Definition builtin_eid (e : list Z) : bool := 192 <=? nth 3 e 0.
+Definition osum_builtin (o : osum) : bool :=
+  match o with
+  | OAck r w _ _ _ | ONackFrag r w _ _ _ _ | OData r w _ _ | ODataFrag r w _ _ _ | OGap r w _ _ => builtin_eid r || builtin_eid w
+  end.
+Definition project_dgram (b : list Z) : list osum :=
+  filter (fun o => negb (osum_builtin o)) (flat_map project (subs_of b)).
 Definition nonempty {A} (l : list A) : bool := match l with [] => false | _ => true end.
 Definition outs_match (model : outs) (sent : list (list Z)) : bool :=
   list_eqb_gen (list_eqb_gen osum_eqb) (filter nonempty model) (filter nonempty (map project_dgram sent)).
 
-(* entity ids of builtin endpoints have the two top bits of the kind octet set; the measured
-   state only holds the user-defined endpoints, so a panic while such an id is addressed is not
-   predicted *)
-Definition builtin_eid (e : list Z) : bool := 192 <=? nth 3 e 0.
+(* a panic while a builtin endpoint is addressed is not predicted either *)
 Definition touches_builtin (m : psub) : bool :=
   match m with
   | AckNack _ r w _ _ => builtin_eid r || builtin_eid w
@@ -68,7 +73,7 @@ Fixpoint run_model (st : pstate) (ds : list (list Z)) (os : list obs) : bool :=
       match handle_datagram st d, o with
       | Ok (st', out), OOk _ sent =>
           outs_match out sent && (datagram_steps st d <? STEPS_OK_MAX) && run_model st' ds' os'
-      | Ok _, OPanic s => (s =? 0) || dgram_touches_builtin d
+      | Ok _, OPanic s => (s =? 0) || (7 <=? site_file s) || dgram_touches_builtin d
       | Ok _, OHang => STEPS_HANG_MIN <=? datagram_steps st d
       | Ok _, OOom _ => true      (* allocation in DCPS code after the handlers (outside this model) *)
       | Panic s, OPanic s' => site_file s =? site_file s'
@@ -97,10 +102,14 @@ Definition C06_oracle_ok (c : C06_case) : bool :=
    keyed by the panic site (file) / HANG and the trigger found in the datagrams handled so far *)
 Definition any_sub (f : psub -> bool) (ds : list (list Z)) : bool := existsb (fun d => existsb f (subs_of d)) ds.
 Definition fnset_site (s : Z) : bool := (s =? 60151) || (s =? 60152).
+(* a DATA / DATA_FRAG hands a payload to the DCPS code behind the readers (outside this model) *)
+Definition carries_payload (m : psub) : bool := is_data m.
 Fixpoint classify (seen : list (list Z)) (ds : list (list Z)) (os : list obs) : N :=
   match ds, os with
   | d :: ds', OOk peak _ :: os' =>
-      if peak <=? ALLOC_C * len d + ALLOC_K then classify (d :: seen) ds' os' else 0%N
+      if peak <=? ALLOC_C * len d + ALLOC_K then classify (d :: seen) ds' os'
+      else if any_sub carries_payload [d] then 9%N else 0%N
+  | d :: _, OOom _ :: _ => if any_sub carries_payload [d] then 9%N else 0%N
   | d :: _, OPanic s :: _ =>
       let cur := [d] in let all := d :: seen in
       if fnset_site s then (if is_panic (parse_message d) then 8%N else 0%N)
@@ -109,12 +118,14 @@ Fixpoint classify (seen : list (list Z)) (ds : list (list Z)) (os : list obs) : 
       else if site_file s =? 5 then
         (if any_sub k_acknack_min cur then 4%N else if any_sub k_set_max cur then 3%N
          else if any_sub k_sn_max cur then 6%N else 0%N)
+      else if site_file s =? 7 then (if any_sub carries_payload cur then 10%N else 0%N)
       else if (site_file s =? 3) || (site_file s =? 4) then
         (if any_sub k_hb_min all then 5%N else if any_sub k_sn_max all then 6%N
          else if any_sub k_set_max all then 3%N else 0%N)
       else 0%N
   | d :: _, OHang :: _ =>
-      if any_sub k_gap_range [d] then 2%N else if any_sub k_frag_count (d :: seen) then 7%N else 0%N
+      if any_sub k_gap_range [d] then 2%N else if any_sub k_frag_count (d :: seen) then 7%N
+      else if any_sub carries_payload [d] then 9%N else 0%N
   | _, _ => 0%N
   end.
 Definition C06_known (c : C06_case) : N := classify [] (map X (c6_dgrams c)) (c6_obs c).
